@@ -116,10 +116,21 @@ def module_file(modname):
     return None
 
 
+# functions a check exercises through objects it builds itself (not through h.fn / h.method),
+# which the evidence's functions_under_contract therefore does not name
+EXTRA = {
+    "C09": ["trimesh.scene.transforms.SceneGraph.update", "trimesh.scene.transforms.SceneGraph.get", "trimesh.scene.transforms.EnforcedForest.add_edge", "trimesh.scene.transforms.EnforcedForest.remove_node", "trimesh.scene.transforms.EnforcedForest.shortest_path", "trimesh.scene.transforms.EnforcedForest.successors"],
+    "C08": ["trimesh.scene.transforms.SceneGraph.to_gltf", "trimesh.exchange.gltf._build_views", "trimesh.exchange.gltf._build_accessor", "trimesh.exchange.gltf._byte_pad", "trimesh.exchange.ply.export_ply", "trimesh.exchange.stl.export_stl", "trimesh.exchange.off.export_off", "trimesh.exchange.binvox.export_binvox"],
+    "C13": ["trimesh.voxel.base.VoxelGrid.points_to_indices", "trimesh.voxel.base.VoxelGrid.is_filled", "trimesh.voxel.runlength.brle_to_dense", "trimesh.voxel.runlength.rle_to_dense", "trimesh.voxel.runlength.dense_to_brle", "trimesh.voxel.runlength.dense_to_rle"],
+    "C16": ["trimesh.bounds.oriented_bounds_2D", "trimesh.bounds.oriented_bounds", "trimesh.bounds.minimum_cylinder"],
+    "C17": ["trimesh.base.Trimesh.copy", "trimesh.scene.scene.Scene.copy", "trimesh.visual.color.ColorVisuals.copy"],
+}
+
+
 def targets_for(prop, only=None):
     ev = json.load(open(os.path.join(VERIF, "evidence", prop + ".json")))
     out = []
-    for q in sorted(ev["coverage"].get("functions_under_contract", {})):
+    for q in sorted(set(ev["coverage"].get("functions_under_contract", {})) | set(EXTRA.get(prop, []))):
         if only and only not in q:
             continue
         parts = q.split(".")
